@@ -209,7 +209,7 @@ let run_pie_case (idx : int) (toks : string list) (fuel : nat) (with_dump : bool
      | "F" -> let k = num t in
        let rs = List.init k (fun _ -> n_of_int (num t)) in
        let (_, w') = dsl_run_step !tb fuel !w (HEnv rs) in w := w'
-     | "S" ->
+     | "S" | "Z" ->   (* "Z": the implementation harness keeps using the Session after an abort; the model stops there *)
        let k = num t in
        let sops = List.init k (fun _ -> match next t with
            | "q" -> SRequire (n_of_int (num t))
